@@ -58,12 +58,20 @@ func RunC10(s *kernel.Sim) *World {
 	for _, n := range declared {
 		uniq[n] = true
 	}
-	var ts taggedStruct
-	useStruct := t.Bool(1, 4)
+	var ts, ts2 taggedStruct
+	useStruct := t.Bool(1, 3)
 	if useStruct {
 		cfg.Structs = []setec.Struct{{Value: &ts, Prefix: "st"}}
 		for _, n := range []string{"st/one", "st/two", "st/three"} {
 			uniq[n] = true
+		}
+		if t.Bool(1, 2) {
+			// the same name declared twice over: listed and tagged
+			declared = append(declared, []string{"st/one", "st/two"}[t.Choice(2)])
+		}
+		if t.Bool(1, 3) {
+			// ... or tagged in two structs
+			cfg.Structs = append(cfg.Structs, setec.Struct{Value: &ts2, Prefix: "st"})
 		}
 	}
 	cfg.Secrets = declared
